@@ -2,8 +2,10 @@ package checks
 
 import (
 	"fmt"
+	"os"
 	"runtime"
 	"runtime/debug"
+	"strconv"
 	"sync"
 	"sync/atomic"
 	"time"
@@ -337,7 +339,68 @@ func (s *ccStress) round(r *rng.R, mode int) {
 	s.c.Res.CountN("conc", "workers", nworkers)
 }
 
+// c17StaleFinalizer replays Props/C17 `delTwiceSched` (theorem close_race_delfunc_twice) on the implementation:
+//
+//	A: the last Handle.Release of node n (counter -> 0) stalls before n.r.mu.RLock() in unRefExternal
+//	B: Get(k) revives n (0 -> 1), Release (-> 0): mBucket.delete removes n and runs its delFuncs; Close(false)
+//	A: resumes, sees closed, callFinalizer(n): n.delFuncs — run but never cleared by mBucket.delete — run again.
+//
+// The window in A cannot be held open without editing the code, so this is a stress of exactly these threads
+// (about 40 double runs per million trials on this machine).  OPT-IN: set VERIF_C17_STALE=<seconds>; the finding is
+// reported under cache.Close:stale-callFinalizer:delfunc-twice.
+func c17StaleFinalizer(c *Ctx, seconds int) {
+	deadline := time.Now().Add(time.Duration(seconds) * time.Second)
+	trials, twice := 0, 0
+	for time.Now().Before(deadline) && twice == 0 {
+		for i := 0; i < 2000 && twice == 0; i++ {
+			trials++
+			cc := cache.NewCache(cache.NewLRU(0))
+			var finRuns, delRuns int32
+			v := &c17StaleVal{n: &finRuns}
+			hA := cc.Get(0, 1, func() (int, cache.Value) { return 1, v })
+			cc.Delete(0, 1, func() { atomic.AddInt32(&delRuns, 1) }) // deferred: hA is outstanding
+			var start int32
+			var wg sync.WaitGroup
+			wg.Add(2)
+			go func() {
+				defer wg.Done()
+				for atomic.LoadInt32(&start) == 0 {
+				}
+				hA.Release()
+			}()
+			go func() {
+				defer wg.Done()
+				for atomic.LoadInt32(&start) == 0 {
+				}
+				for k := 0; k < 3; k++ {
+					if h := cc.Get(0, 1, nil); h != nil {
+						h.Release()
+					}
+				}
+				cc.Close(false)
+			}()
+			runtime.Gosched()
+			atomic.StoreInt32(&start, 1)
+			wg.Wait()
+			if d, f := atomic.LoadInt32(&delRuns), atomic.LoadInt32(&finRuns); d != 1 || f != 1 {
+				twice++
+				c.Res.Violate("cache.Close:stale-callFinalizer:delfunc-twice",
+					fmt.Sprintf("trial %d: after Get, Delete(delFunc), {Release || Get;Release;Close(false)} the delFunc ran %d times and the value was released %d times (Node.unRefExternal decides it holds the last reference before it takes r.mu; a concurrent Get/Release removes the node through mBucket.delete, which runs n.delFuncs without clearing them; after Close the first thread calls callFinalizer on the removed node)", trials, d, f),
+					map[string]interface{}{"kind": "targeted-stress", "trials": trials, "lean": "GoLevel.C17.close_race_delfunc_twice"})
+			}
+		}
+	}
+	c.Res.CountN("conc", "stale-finalizer-trials", trials)
+}
+
+type c17StaleVal struct{ n *int32 }
+
+func (v *c17StaleVal) Release() { atomic.AddInt32(v.n, 1) }
+
 func c17Concurrent(c *Ctx) {
+	if sec, _ := strconv.Atoi(os.Getenv("VERIF_C17_STALE")); sec > 0 {
+		c17StaleFinalizer(c, sec)
+	}
 	s := &ccStress{c: c, viol: map[string]string{}}
 	r := c.R.Fork()
 	nrounds := c.Scale(1200, 12000)
